@@ -20,7 +20,7 @@ CHECKS = {
  "C07": ("exploration", "exhaustive drivers of the other properties re-executed in a trapping build (debug assertions + overflow checks + std unsafe-precondition checks) inside worker processes; crash oracle",
          "Every case of the C01/C03/C06(+two-ply safe-API exercise of every accepted board)/C08/C10/C11/C12/C15/C17/C18 drivers plus extremal positions and degenerate search roots runs without panic, overflow trap, failed assertion or fatal signal.", "3 C07"),
  "C08": ("exploration", "complete enumeration of every ray-subset occupancy for 64 squares x 2 sliders against ray casting",
-         "Exhaustive over the 1 119 744 ray-subset occupancies (x4 off-ray/own-square variants) plus single off-ray toggles; index range observed as panic here and as trap in the C07 flavour.", "3 C08"),
+         "Exhaustive over the 1 119 744 ray-subset occupancies (x4 off-ray/own-square variants) plus single off-ray toggles; the check runs in the trapping build flavour, where an out-of-range table index panics (checked indexing) and is reported.", "3 C08"),
  "C09": ("exploration", "complete enumeration of all geometry tables, pawn helpers (every relevant occupancy) and constants against (file,rank) definitions and the generator",
          "Finite domain enumerated completely.", "3 C09"),
  "C10": ("model_checking", "deviation-bounded stateless exploration of operation sequences on the real MoveGen against a set model (0, 1, 2 mutators at every point; 3 in thorough)",
